@@ -487,6 +487,8 @@ def run_breadlog(root, check=False, plan=None, knobs=None, binary=None):
     else:  # "/" : always absolute
         cwd = "/"
         cfg = os.path.join(proj, cfgname)
+    if knobs.get("config_override"):
+        cfg = knobs["config_override"].replace("@ROOT@", root)   # explicit path (relative to the working directory chosen above)
     tmpdir = os.path.join(root, knobs.get("tmpdir", "tmp"))
     if knobs.get("tmpdir_make"):
         os.makedirs(tmpdir, exist_ok=True)    # (exec_run has already put it into the world; this serves drivers that materialise themselves)
@@ -515,6 +517,14 @@ def run_breadlog(root, check=False, plan=None, knobs=None, binary=None):
         argv = [binary, "--config=" + cfg]
     elif style == "check_first" and check:
         argv = [binary, "--check", "-c", cfg]
+    elif style == "check_twice" and check:
+        argv = [binary, "-c", cfg, "--check", "--check"]          # a wrapper that appends --check to flags that have it
+    elif style == "check_eq" and check:
+        argv = [binary, "-c", cfg, "--check=true"]
+    elif style == "config_twice" and check:
+        argv = [binary, "-c", cfg, "--check", "-c", cfg]
+    elif style == "unknown_flag" and check:
+        argv = [binary, "-c", cfg, "--check", "--fix"]
     else:
         argv = [binary, "-c", cfg]
     if check and "--check" not in argv:
